@@ -1,13 +1,65 @@
-(* C06 — Failures reach the caller and never hang the pipeline.  (under construction) *)
-From SV Require Import Model.PostOffice.
+(* C06 — Failures reach the caller and never hang the pipeline.
+   Single-thread processor part: theorems over the message-level PostOffice model, for ALL well-formed
+   plugin DAGs (shared dependencies included), all stage computations, all failure positions.
+   The threaded-mailbox part is stated over the mailbox network model (see below / design notes). *)
+From SV Require Import Model.PostOffice Spec.PostOfficeSpec Proof.PostOfficeProof.
 
-Example C06_po_example :
-  snd (run_po [Src [1; 2; 3]; Src [10; 20]; Stage [0%nat; 1%nat]] None 2 [false; false; true] 10 5)
-  = Ok [comb_std 2 [1; 10]; comb_std 2 [2; 20]].
-Proof. vm_compute. reflexivity. Qed.
+(* without a failure: the caller receives exactly the whole-run result, the target ends exhausted, every
+   saver saw exactly what its topic produced and was closed exactly once iff the topic was exhausted *)
+Theorem C06_single_thread_no_failure_complete :
+  forall g comb target spies steps fuel,
+    po_hyps g comb target spies steps fuel ->
+    let res0 := po_run g comb None target spies steps fuel in
+    snd res0 = Ok (whole_of g comb target) /\
+    exhausted (get (fst res0) target) = true /\
+    (forall t, (t < length g)%nat -> spy_ok g comb spies (fst res0) t) /\
+    (no_consumers g target -> saved (get (fst res0) target) = []).
+Proof. exact po_no_fault_complete. Qed.
+Print Assumptions C06_single_thread_no_failure_complete.
 
-Theorem C06_po_fault_example :
-  snd (run_po [Src [1; 2; 3]; Src [10; 20]; Stage [0%nat; 1%nat]] (Some (1%nat, 1%nat)) 2 [false; false; true] 10 5)
-  = Err 1.
-Proof. vm_compute. reflexivity. Qed.
-Print Assumptions C06_po_fault_example.
+(* whatever fails, wherever: the caller gets the exception or the complete result — never a truncated
+   or otherwise different result (the model has no blocking: termination is part of the statement since
+   po_run is a total function whose OutOfFuel / step-bound outcomes (Err 99) are excluded) *)
+Theorem C06_single_thread_never_silently_truncated :
+  forall g comb target spies steps fuel,
+    po_hyps g comb target spies steps fuel ->
+    forall fault,
+    let res0 := po_run g comb fault target spies steps fuel in
+    snd res0 = Err 1 \/ snd res0 = Ok (whole_of g comb target).
+Proof. exact po_never_silently_truncated. Qed.
+Print Assumptions C06_single_thread_never_silently_truncated.
+
+(* the exception reaches the caller exactly when the injected failure happened ... *)
+Theorem C06_single_thread_exception_iff_fired :
+  forall g comb target spies steps fuel,
+    po_hyps g comb target spies steps fuel ->
+    forall fault,
+    let res0 := po_run g comb fault target spies steps fuel in
+    snd res0 = Err 1 <-> fired fault (fst res0).
+Proof. exact po_exception_iff_fired. Qed.
+Print Assumptions C06_single_thread_exception_iff_fired.
+
+(* ... which is exactly when the failure-free run gets that producer to that position *)
+Theorem C06_single_thread_failure_reaches_caller :
+  forall g comb ft fp target spies steps fuel,
+    po_hyps g comb target spies steps fuel ->
+    snd (po_run g comb (Some (ft, fp)) target spies steps fuel) = Err 1 <->
+    requested g (fst (po_run g comb None target spies steps fuel)) ft fp.
+Proof. exact po_fault_fires_iff. Qed.
+Print Assumptions C06_single_thread_failure_reaches_caller.
+
+(* when the exception arrives every saver has been closed (kill_spies), exactly once, and no topic was
+   declared exhausted: nothing is marked complete *)
+Theorem C06_single_thread_savers_closed_on_error :
+  forall g comb target spies steps fuel,
+    po_hyps g comb target spies steps fuel ->
+    forall fault,
+    let res0 := po_run g comb fault target spies steps fuel in
+    snd res0 = Err 1 ->
+    forall t, (t < length g)%nat ->
+      exhausted (get (fst res0) t) = false /\
+      (nth t spies false = true ->
+        has_spy (get (fst res0) t) = true /\ spy_closed (get (fst res0) t) = 1%nat /\
+        spy_log (get (fst res0) t) = firstn (ppos (get (fst res0) t)) (whole_of g comb t)).
+Proof. exact po_spies_closed_on_error. Qed.
+Print Assumptions C06_single_thread_savers_closed_on_error.
